@@ -365,7 +365,18 @@ fn gen_script(rng: &mut Rng, len: usize, max_lines: usize) -> Vec<String> {
             }
             5 => if long { "break" } else { "b" }.to_string(),
             6 => if long { "help" } else { "h" }.to_string(),
-            7 => (*rng.pick(&["foo", "N", "nextt", "q", "?", "형"])).to_string(),
+            7 => {
+                if rng.chance(25) {
+                    // a long unknown word of mixed character widths (e.g. program text pasted at the prompt)
+                    let mut w = String::new();
+                    for _ in 0..rng.usize(12, 60) {
+                        w.push(*rng.pick(&['형', '.', 'x', '엉', '💕', '?', 'é', '하', '앙', '7', '!', '♡']));
+                    }
+                    w
+                } else {
+                    (*rng.pick(&["foo", "N", "nextt", "q", "?", "형"])).to_string()
+                }
+            }
             _ => (*rng.pick(&["", " ", "   "])).to_string(),
         };
         if rng.chance(5) {
@@ -511,6 +522,9 @@ impl Property for C11 {
         }
         if rng.chance(6) {
             sc.cmds = gen::goto_machine(rng, true);
+        }
+        if rng.chance(8) {
+            gen::magic_output(rng, &mut sc.cmds);
         }
         if rng.chance(3) {
             sc.cmds.clear();
